@@ -861,11 +861,16 @@ fn run_inner(ctx: &Ctx, rep: &mut Report, model: &mut Model, rng: &mut Rng) {
         let mut text = vec![];
         let mut keys = vec![];
         let mut all_valid = true;
+        let mut made: Vec<(Vec<u8>, Vec<u8>)> = vec![];
         for _ in 0..n {
-            let (der, key) = loop {
-                let (d, p, k) = valid_der(rng);
-                if !p { break (d, k); }
+            // the same key may be listed more than once: it must come back as often, in order
+            let (der, key) = if !made.is_empty() && rng.chance(1, 3) { rng.pick(&made).clone() } else {
+                loop {
+                    let (d, p, k) = valid_der(rng);
+                    if !p { break (d, k); }
+                }
             };
+            made.push((der.clone(), key.clone()));
             let k = *rng.pick(&[0u64, 0, 0, 1]);
             let (t, labels, valid) = pem_variant(rng, b"PUBLIC KEY", &der, k);
             // text after / an unterminated block after one key hides the following ones: keep those out
